@@ -219,7 +219,11 @@ func c13ExecOn(sp *saml2.SAMLServiceProvider, expectedKey string, c c13Case) (ke
 		detail += " | recipient verification with the reported certificate: " + verr.Error()
 		// which certificate does verify?
 		who := "none"
+		slots := map[string]string{"rotated-in-key": "KA"}
 		for slot, kn := range c13SlotKey {
+			slots[slot] = kn
+		}
+		for slot, kn := range slots {
 			c2 := dsig.NewDefaultValidationContext(&dsig.MemoryX509CertificateStore{Roots: []*x509.Certificate{world.Cert(kn)}})
 			c2.Clock = world.Clock(world.T0)
 			d2 := etree.NewDocument()
@@ -319,7 +323,134 @@ func c13ExecOn(sp *saml2.SAMLServiceProvider, expectedKey string, c c13Case) (ke
 	return nil, detail, "verifies/" + algName
 }
 
+// ---- histories: keys replaced through the setters on an instance that has already signed ----
+
+// c13Hist is one operation sequence on one instance. The instance starts with an encryption key
+// in the field (and, for Init 1, a signing key in the field) and SignAuthnRequests on.
+type c13Hist struct {
+	Init int   `json:"init"`
+	Ops  []int `json:"ops"` // indices into c13HistOps
+}
+
+var c13HistOps = []string{
+	"SetSPKeyStore(KX)", "SetSPKeyStore(nil)",
+	"SetSPSigningKeyStore(K1)", "SetSPSigningKeyStore(KA)", "SetSPSigningKeyStore(nil)",
+	"build AuthnRequest", "build LogoutRequest", "build LogoutResponse",
+}
+
+// c13HistExec replays the history on a fresh instance; the oracle runs on the last operation when
+// it is a build: the message must verify with the certificate that the rule of the statement
+// picks from the configuration in force at that moment (the model: two setter slots).
+func c13HistExec(h c13Hist) (keys []string, detail, class string) {
+	cc := c15Case{Kind: "AuthnRequest", Signed: true, Str: make([]int, sCount), RAC: 2}
+	sp := c15SP(cc)
+	sp.SPKeyStore = world.TLSKeyStore("KS")
+	k := c13Keys{EncField: true}
+	if h.Init == 1 {
+		sp.SPSigningKeyStore = world.TLSKeyStore("KG")
+		k.SigField = true
+	}
+	sigSetter := ""
+	names := []string{}
+	built := false
+	afterBuild := false // a key was replaced after the instance had already signed
+	for i, op := range h.Ops {
+		names = append(names, c13HistOps[op])
+		last := i == len(h.Ops)-1
+		switch op {
+		case 0:
+			sp.SetSPKeyStore(world.SetterKeyStore("KX"))
+			k.EncSetter = true
+		case 1:
+			sp.SetSPKeyStore(nil)
+			k.EncSetter = false
+		case 2, 3:
+			sigSetter = []string{"K1", "KA"}[op-2]
+			sp.SetSPSigningKeyStore(world.SetterKeyStore(sigSetter))
+			k.SigSetter = true
+		case 4:
+			sp.SetSPSigningKeyStore(nil)
+			k.SigSetter, sigSetter = false, ""
+		default:
+			kind := []string{"AuthnRequest", "LogoutRequest", "LogoutResponse"}[op-5]
+			if !last {
+				var err error
+				p := guard(func() {
+					switch kind {
+					case "AuthnRequest":
+						_, err = sp.BuildAuthRequestDocument()
+					case "LogoutRequest":
+						_, err = sp.BuildLogoutRequestDocument("n", "s")
+					default:
+						_, err = sp.BuildLogoutResponseDocument(saml2.StatusCodeSuccess, "_r")
+					}
+				})
+				if p != "" || err != nil {
+					return []string{"C13/after-reconfiguration/builder-fails"}, fmt.Sprintf("history=%v: step %d: err=%v panic=%q", names, i, err, p), "ERROR"
+				}
+				built = true
+				continue
+			}
+			expected := k.expectedSigner()
+			if k.SigSetter {
+				expected = sigSetter
+			}
+			mask := 0
+			for b, on := range []bool{k.EncField, k.EncSetter, k.SigField, k.SigSetter} {
+				if on {
+					mask |= 1 << b
+				}
+			}
+			ks, d, cl := c13ExecOn(sp, expected, c13Case{Keys: mask - 1, Kind: kind, Str: make([]int, sCount)})
+			detail = fmt.Sprintf("history=%v expected-signer=%s | %s", names, expected, d)
+			when := "fresh-configuration"
+			if afterBuild {
+				when = "key-replaced-after-first-signature"
+			}
+			for _, x := range ks {
+				if i := strings.Index(x, "/keys="); i >= 0 {
+					x = x[:i]
+				}
+				keys = append(keys, strings.Replace(x, "C13/", "C13/history/"+when+"/", 1))
+			}
+			if len(keys) > 0 {
+				return dedupe(keys), detail, "history/" + cl
+			}
+			return nil, detail, "history/verifies/" + when
+		}
+		if built && op < 5 {
+			afterBuild = true
+		}
+	}
+	return nil, fmt.Sprintf("history=%v (no build at the end)", names), "history/no-build"
+}
+
+func c13Histories(depth int) []c13Hist {
+	var out []c13Hist
+	var rec func(prefix []int)
+	rec = func(prefix []int) {
+		if len(prefix) > 0 && prefix[len(prefix)-1] >= 5 {
+			for init := 0; init < 2; init++ {
+				out = append(out, c13Hist{Init: init, Ops: append([]int(nil), prefix...)})
+			}
+		}
+		if len(prefix) == depth {
+			return
+		}
+		for op := range c13HistOps {
+			rec(append(prefix, op))
+		}
+	}
+	rec(nil)
+	return out
+}
+
 func c13Replay(raw json.RawMessage) ([]string, string) {
+	var h c13Hist
+	if err := json.Unmarshal(raw, &h); err == nil && len(h.Ops) > 0 {
+		k, d, _ := c13HistExec(h)
+		return k, d
+	}
 	var c c13Case
 	if err := json.Unmarshal(raw, &c); err != nil {
 		return nil, err.Error()
@@ -333,7 +464,7 @@ func c13Run(r *mc.Run) {
 	if r.Thorough() {
 		bound = 2
 	}
-	r.Rule = "full product key configuration(15: every non-empty subset of {encryption field, encryption setter, signing field, signing setter}, a distinct key per slot) x signature algorithm(6: unset, rsa-sha1/256/384/512, ecdsa-sha256 with a setter-supplied P-256 signer) x canonicaliser(8) x message kind(3) (logout kinds with SignAuthnRequests on and off), with <=1 (quick) / <=2 (thorough) of 12 configuration strings taken from a 16-value special-character alphabet; oracle = the recipient: re-parse from bytes, goxmldsig verification with exactly the reported certificate, declared algorithms, embedded certificate, placement after Issuer, metadata signing key. non-trivial = a signed document was produced and verified; distinct = distinct case"
+	r.Rule = "full product key configuration(15: every non-empty subset of {encryption field, encryption setter, signing field, signing setter}, a distinct key per slot) x signature algorithm(6: unset, rsa-sha1/256/384/512, ecdsa-sha256 with a setter-supplied P-256 signer) x canonicaliser(8) x message kind(3) (logout kinds with SignAuthnRequests on and off), with <=1 (quick) / <=2 (thorough) of 12 configuration strings taken from a 16-value special-character alphabet; oracle = the recipient: re-parse from bytes, goxmldsig verification with exactly the reported certificate, declared algorithms, embedded certificate, placement after Issuer, metadata signing key; plus every operation sequence of <=4 (quick) / <=5 (thorough) steps over {SetSPKeyStore(key|nil), SetSPSigningKeyStore(key1|key2|nil), build of each kind} ending in a build, from two initial field configurations, replayed on a fresh instance: the last message must verify with the certificate the statement's rule picks from the setters in force at that moment (keys replaced after the instance has already signed). non-trivial = a signed document was produced and verified; distinct = distinct case"
 	r.Assume("goxmldsig's validator as the recipient's verifier (trusted base)")
 	var cases []c13Case
 	nk := len(c13AllKeys())
@@ -378,6 +509,32 @@ func c13Run(r *mc.Run) {
 	r.Set("algorithm_product", n0)
 	r.Set("string_cases", len(cases)-n0)
 	r.State(len(cases))
+	// histories: every sequence of <= depth operations ending in a build
+	depth := 4
+	if r.Thorough() {
+		depth = 5
+	}
+	hists := c13Histories(depth)
+	r.Set("history_depth", depth)
+	r.Set("histories", len(hists))
+	r.State(len(hists))
+	defer r.Par(len(hists), func(i int) {
+		if r.Expired() {
+			r.Cap("history enumeration stopped by deadline")
+			return
+		}
+		keys, detail, class := c13HistExec(hists[i])
+		r.Eval(1)
+		r.Transition(len(hists[i].Ops))
+		r.Bucket(class)
+		r.Nontrivial(fmt.Sprintf("%+v", hists[i]))
+		if i%2003 == 0 {
+			r.Sample(map[string]interface{}{"history": hists[i], "observed": detail[:min(len(detail), 500)]})
+		}
+		for _, k := range keys {
+			r.Violation(k, detail[:min(len(detail), 1500)], hists[i])
+		}
+	})
 	r.Par(len(cases), func(i int) {
 		c := cases[i]
 		keys, detail, class := c13Exec(c)
